@@ -220,3 +220,56 @@ func (s *Script) Finish() {
 func (s *Script) Close() error { s.closed = true; return nil }
 func (s *Script) Cancel()      {}
 func (s *Script) RawFd() int   { return -1 }
+
+// clientFrameLen: total length of the masked client frame at the start of b
+// (len(b) if it cannot be told).
+func clientFrameLen(b []byte) int {
+	if len(b) < 2 {
+		return len(b)
+	}
+	h, n := 2, int(b[1]&0x7F)
+	switch n {
+	case 126:
+		if len(b) < 4 {
+			return len(b)
+		}
+		n, h = int(b[2])<<8|int(b[3]), 4
+	case 127:
+		if len(b) < 10 {
+			return len(b)
+		}
+		n, h = int(b[6])<<24|int(b[7])<<16|int(b[8])<<8|int(b[9]), 10
+	}
+	if b[1]&0x80 != 0 {
+		h += 4
+	}
+	if h+n > len(b) {
+		return len(b)
+	}
+	return h + n
+}
+
+// WritableUnits accepts n model units of the parked write (a frame is two
+// units: its first half and the rest); n <= 0: everything.
+func (s *Script) WritableUnits(n int) bool {
+	if !s.wset || n <= 0 {
+		return s.Writable(0)
+	}
+	var bounds []int
+	for off := 0; off < len(s.wb); {
+		l := clientFrameLen(s.wb[off:])
+		bounds = append(bounds, off+l/2, off+l)
+		off += l
+	}
+	target := len(s.wb)
+	for _, b := range bounds {
+		if b > s.wsofar {
+			n--
+			if n == 0 {
+				target = b
+				break
+			}
+		}
+	}
+	return s.Writable(target - s.wsofar)
+}
